@@ -145,8 +145,57 @@ def check_path(ex, w, handler, result, log, pre, msg_info):
     just = []
     if cs: just.append(zb(num_cmp('Eq', qv, Num(cv.e + 1 if not cv.concrete else cv.e + 1, 64))))
     if ts: just.append(zb(num_cmp('Eq', qv, Num(tv.e + 1, 64))))
-    need('C05', f'{handler}:view-change-unjustified', 'the replica moved to a new view without holding a certificate for the preceding view',
-         z3.Or(zb(num_cmp('Eq', qv, pv)), *just) if just else zb(num_cmp('Eq', qv, pv)))
+    # ... held afterwards, or — when the replica already holds a HIGHER certificate of that kind, so that the one that triggered the
+    # change is not retained — carried by the accepted input (new-view / proposal justification), or formed in this step from
+    # the votes for the input's view (on_commit / on_timeout: the view entered is the successor of the vote's view and a
+    # certificate of that kind for that view or a later one is held)
+    seen = list(just)
+    if handler in ('on_new_view', 'on_proposal') and 'just' in msg_info:
+        dj = msg_info['just']
+        seen.append(z3.And(z3.BoolVal(dj['accept']) if isinstance(dj['accept'], bool) else zb(dj['accept']), qv.e == dj['view'].e + 1))
+    if handler == 'on_commit' and cs: seen.append(z3.And(qv.e == msg_info['msg']['view'].e + 1, cv.e >= msg_info['msg']['view'].e))
+    if handler == 'on_timeout' and ts: seen.append(z3.And(qv.e == msg_info['tmsg']['view'].e + 1, tv.e >= msg_info['tmsg']['view'].e))
+    need('C05', f'{handler}:view-change-unjustified', 'the replica moved to a new view without a certificate for the preceding view (neither held afterwards, nor carried by the accepted input, nor formed from the votes for the input\'s view)',
+         z3.Or(zb(num_cmp('Eq', qv, pv)), *seen))
+    # ---- inductiveness: the reachable-state invariant every handler exploration ASSUMES of its pre-state (World.state) holds again
+    # of the post-state, so that one-step verdicts compose over runs of any length. Only where the replica carries on: a failed
+    # engine call ends the replica task, and the restart reads the durable state (C03 d).
+    evs_ = [e[0] for e in log]
+    if result != 'pending' and 'persist_failed' not in evs_ and 'env_fail' not in evs_:
+        inv = []; j2 = [zb(num_cmp('Eq', qv, Num(0, 64)))]
+        if ts: inv.append(zb(num_cmp('Lt', tv, qv))); j2.append(zb(num_cmp('Eq', qv, Num(tv.e + 1, 64))))
+        if cs: j2.append(zb(num_cmp('Ge', Num(cv.e + 1, 64), qv)))
+        inv.append(z3.Or(*j2))
+        need('C05', f'{handler}:state-invariant-broken:certificates', 'after the step the replica holds a timeout certificate of its own or a later view, or the view it is in is not justified by a certificate it holds (timeout certificate of the preceding view, or a commit certificate of the preceding or a later view)', z3.And(*inv))
+        phv = post['high_vote']
+        if phv.variant == 1:
+            hvv = fld(fld(fld(phv.fields[0], 'view'), 'number'), '0')
+            need('C03', f'{handler}:state-invariant-broken:high-vote', 'after the step the recorded high vote is for a view above the replica\'s view', zb(num_cmp('Le', hvv, qv)))
+        voted = any(ev[0] == 'send' and (inner_msg(ev[1]).name or '').endswith('ReplicaCommit') for ev in log)
+        if not voted:
+            need('C02', f'{handler}:high-vote-lost', 'the recorded high vote changed although no commit vote was cast in this step (the lock a timeout vote must report is forgotten or rewritten)',
+                 zb(values_equal(ex, phv, pre_snap(w)['high_vote'])))
+    # ---- C05 (accept / reject class): an input the specification refuses — signer not in the committee, bad signature, another
+    # chain or epoch, a view already left behind, an unverifiable certificate, a proposal by the wrong leader or for a view the
+    # replica already voted or timed out in — is refused, changes nothing and makes nothing leave the node
+    if result != 'pending' and handler in ('on_commit', 'on_timeout', 'on_new_view', 'on_proposal'):
+        zacc = lambda d: (z3.BoolVal(d['accept']) if isinstance(d['accept'], bool) else zb(d['accept']))
+        badc = [z3.BoolVal(msg_info['author'] >= w.N), z3.Not(msg_info['sig_ok'])]
+        if handler == 'on_commit':
+            d = msg_info['msg']; badc += [d['g'] != w.g0, d['e'].e != w.e0.e, d['view'].e < pv.e]
+        elif handler == 'on_timeout':
+            d = msg_info['tmsg']; badc += [d['g'] != w.g0, d['e'].e != w.e0.e, d['view'].e < pv.e]
+            if d.get('hq') is not None: badc.append(z3.Not(zacc(d['hq'])))
+        else:
+            d = msg_info['just']; badc += [z3.Not(zacc(d)), d['view'].e + 1 < pv.e]
+            if handler == 'on_proposal':
+                badc += [z3.And(d['view'].e + 1 == pv.e, z3.BoolVal(pph != 0))]
+                if msg_info['author'] < w.N: badc.append((d['view'].e + 1) % w.N != msg_info['author'])
+        untouched = b_and(num_cmp('Eq', qv, pv), qph == pph, values_equal(ex, post['high_vote'], pre_snap(w)['high_vote']),
+                          values_equal(ex, post['cqc'], pre_snap(w)['cqc']), values_equal(ex, post['tqc'], pre_snap(w)['tqc']))
+        quiet = not any(ev[0] in ('send', 'persist', 'queue_block') for ev in log)
+        need('C05', f'{handler}:invalid-input-acted-on', 'an input the specification refuses (non-member or badly signed sender, other chain / epoch, stale view, unverifiable certificate, wrong leader, view already voted in) was accepted, changed the replica state or made something leave the node',
+             z3.Implies(z3.Or(*badc), z3.And(z3.BoolVal(result.variant == 1 and quiet), zb(untouched))))
     # ---- C16 part 2: vote caches bounded by the committee size
     sm = w.sm_cell.v
     for cname in ('commit_views_cache', 'timeout_views_cache'):
